@@ -122,9 +122,12 @@ def plan_for(prop, tier, seed):
             ("oob-streams-nobatch", False, "dev", lambda ids, rng: G.f_oob_streams(ids, rng, G.tiny_model_list(small, rng, 3 if q else 20))),
             ("oob-rects", True, "dev", lambda ids, rng: G.f_oob_rects(ids, rng, G.tiny_model_list(small, rng, 4 if q else 30), ifaces=("rec", "spi"))),
             ("oob-fault-retry", True, "dev", lambda ids, rng: G.f_fault_retry(ids, rng, 300 if q else 5000, flavour="oob")),
-            ("oob-real", True, "dev", lambda ids, rng: G.f_oob_streams(ids, rng, G.real_model_list(rng, ["st7789", "gc9107"] if q else None, full=not q), n_per_cfg=4)
-                                                       + G.f_oob_rects(ids, rng, G.real_model_list(rng, ["ili9341_666", "st7735s"] if q else None, full=not q), n_per_cfg=4)),
+            ("oob-real", True, "dev", lambda ids, rng: G.f_oob_streams(ids, rng, G.real_model_list(rng, ["st7789", "gc9107"] if q else None, full=False, maxside=48 if q else 64), n_per_cfg=4)
+                                                       + G.f_oob_rects(ids, rng, G.real_model_list(rng, ["ili9341_666", "st7735s"] if q else None, full=False, maxside=48 if q else 64), n_per_cfg=4)),
         ]
+        if not q:
+            # full-size panels (every comparison touches up to 76 800 cells): a handful of scenarios only
+            p.families.append(("oob-real-fullsize", True, "dev", lambda ids, rng: [sc for sc in G.f_oob_rects(ids, rng, [("gc9107", 128, 160, [(128, 160, 0, 0)]), ("st7789", 240, 320, [(240, 320, 0, 0)])], n_per_cfg=3)][::2]))
     elif prop == "C03":
         p.mc = [(MCP, "MC_Batch_q" if q else "MC_Batch_t", 12, 3000, None)] + ([] if q else [(MCP, "MC_Batch_oob_t", 12, 3000, None)])
         p.rule = ("scenario = configuration + draw_iter streams (colour i on the i-th element); non-trivial: a stream of at "
@@ -145,7 +148,7 @@ def plan_for(prop, tier, seed):
             ("contig-tiny", True, "dev", lambda ids, rng: G.f_contig_tiny(ids, rng, sample=0.15 if q else 1.0, ifaces=("rec", "spi", "spi"))),
             ("contig-fault-retry", True, "dev", lambda ids, rng: G.f_fault_retry(ids, rng, 300 if q else 5000, flavour="contig")),
             ("contig-rects", True, "dev", lambda ids, rng: G.f_oob_rects(ids, rng, G.tiny_model_list([(2, 3), (4, 3), (7, 5)], rng, 4 if q else 40), ifaces=("rec", "spi", "p8"))),
-            ("contig-real", True, "dev", lambda ids, rng: G.f_oob_rects(ids, rng, G.real_model_list(rng, ["st7789", "ili9486_666"] if q else None, full=not q), n_per_cfg=5, ifaces=("rec",))),
+            ("contig-real", True, "dev", lambda ids, rng: G.f_oob_rects(ids, rng, G.real_model_list(rng, ["st7789", "ili9486_666"] if q else None, full=False, maxside=48 if q else 64), n_per_cfg=5, ifaces=("rec",))),
         ]
     elif prop == "C08":
         p.mc = [(MCP, "MC_Placement_re_q" if q else "MC_Placement_d2_t", 12, 3000, None)] + ([] if q else [(MCP, "MC_Placement_scaled", 12, 3000, None)])
